@@ -103,7 +103,7 @@ def r1(ctx):
                 continue
             ok, why, wit = True, '', None
             for cd in carried:
-                ok1, why1, wit1 = bounded_on_all_paths(fn, cd, wide, nid, tgt_w)
+                ok1, why1, wit1 = bounded_on_all_paths(fn, cd, wide, nid, tgt_w, bool(v.get('sg')) and wide[cd]['fl'])
                 if not ok1:
                     ok, why, wit = False, why1, wit1
                     break
@@ -113,7 +113,7 @@ def r1(ctx):
         raise AnalysisBroken('C07.R1: only %d wide sources found (confirmed: 9)' % nsrc)
 
 
-def bound_fits(fn, a, decl, tgt_w, ivenv):
+def bound_fits(fn, a, decl, tgt_w, ivenv, tgt_signed=False):
     """does comparison atom a = ('cmp', l, op, r) bound variable decl? returns 'upper'/'lower'/None"""
     l, op, r = a[1], a[2], a[3]
     if isinstance(r, tuple) or isinstance(l, tuple):
@@ -131,7 +131,10 @@ def bound_fits(fn, a, decl, tgt_w, ivenv):
         return None
     lo, hi = iv
     if op in ('<', '<=', '=='):
-        lim = 2 ** tgt_w if op == '<' else 2 ** tgt_w - 1
+        # a floating value converted to a signed integer type must stay below 2^(w-1) (the conversion is undefined
+        # otherwise); integer-to-integer narrowing keeps the low bits, so the full unsigned range is accepted there
+        top = 2 ** (tgt_w - 1) if tgt_signed else 2 ** tgt_w
+        lim = top if op == '<' else top - 1
         if hi <= lim:
             if op == '==' and lo >= -(2 ** (tgt_w - 1)):
                 return 'both'
@@ -143,7 +146,7 @@ def bound_fits(fn, a, decl, tgt_w, ivenv):
     return None
 
 
-def bounded_on_all_paths(fn, decl, wide, sink, tgt_w):
+def bounded_on_all_paths(fn, decl, wide, sink, tgt_w, tgt_signed=False):
     """explore all feasible paths from the function entry to the sink; state = frozenset of (wide decl, side)
     bounds established so far. A write to a wide variable resets its bounds, except a pure conversion copy
     `W2 = (T)W1`, which inherits the bounds of W1 (conversions are monotone)."""
@@ -206,7 +209,7 @@ def bounded_on_all_paths(fn, decl, wide, sink, tgt_w):
                 if a[0] != 'cmp':
                     continue
                 for wd in wide:
-                    r = bound_fits(fn, a, wd, tgt_w, ivenv)
+                    r = bound_fits(fn, a, wd, tgt_w, ivenv, tgt_signed)
                     if r == 'both':
                         here |= {(wd, 'upper'), (wd, 'lower')}
                     elif r:
@@ -436,3 +439,7 @@ def run(ctx):
     r4(ctx)
     import rules.C12 as c12
     c12.errno_rule(ctx, 'C07.R3')
+    import rules.C12 as c12
+    ctx.borrow(c12.r2, {'C12.R2': 'C07.R5'},
+               'a field is range-checked against the minimum/maximum of the type object it got from derive(); a cached '
+               'object built for another range lets values outside the field\'s own range pass')
